@@ -361,7 +361,13 @@ fn supervisor(property: &str, tier: &str) -> i32 {
     let _ = std::fs::remove_file(hang_flag_path(property));
     std::env::set_var("VERIF_HANG_FLAG", hang_flag_path(property));
     let end = run_child(&["--worker", property, tier], limit, false);
-    if !end.timed_out { if let Some(c) = end.code { return c; } }
+    if !end.timed_out {
+        match end.code {
+            Some(c @ (0 | 1 | 2)) => return c,
+            Some(c) => { println!("HARNESS-ERROR: the worker process ended with exit status {} (a failure of the harness itself)", c); return 2; }
+            None => {}
+        }
+    }
     // the worker died on a signal or hung: find the culprit run
     // (the worker writes a flag and prints a HANG line before aborting when one run made no progress)
     let hung = std::fs::read_to_string(hang_flag_path(property)).is_ok();
@@ -397,6 +403,14 @@ fn supervisor(property: &str, tier: &str) -> i32 {
             println!("VIOLATION property={} replay={}", property, path);
             return 1;
         }
+    }
+    // A watchdog abort that does not reproduce in isolation was a stall of the machine, not of the
+    // library: run the batch once more with a four times more patient watchdog.
+    if hung && std::env::var("VERIF_RETRIED").is_err() {
+        println!("the run the watchdog stopped completes normally in isolation (a stall of the machine, not a hang of the library); repeating the batch once with a more patient watchdog");
+        std::env::set_var("VERIF_RETRIED", "1");
+        std::env::set_var("VERIF_HANG_S", (env_u64("VERIF_HANG_S").unwrap_or(20) * 4).to_string());
+        return supervisor(property, tier);
     }
     println!("HARNESS-ERROR: worker {} but no single run reproduces it in isolation", what);
     2
